@@ -1,0 +1,84 @@
+//go:build verif
+
+// Contracts for the verification machinery in /verif (comment-only file; compiled only with -tags verif).
+package orderedmap
+
+//@ -- Representation: Pairs is the insertion-ordered list; inner indexes it by key. inner is dropped by gob, so a
+//@ -- decoded map has inner == nil; rehydrate rebuilds it when the sizes differ.
+//@ define (omPair m i) (idx m.Pairs i)
+//@ define (omInRange m i) (and (<= 0 i) (< i (len m.Pairs)))
+//@ define (omNonNilPairs m) (forall ((i Int)) (=> (omInRange m i) (not (= (omPair m i) nil))))
+//@ define (omDistinct m) (forall ((i Int) (j Int)) (=> (and (omInRange m i) (omInRange m j) (not (= i j))) (not (= (. (omPair m i) Key) (. (omPair m j) Key)))))
+//@ define (omIndexed m) (forall ((i Int)) (=> (omInRange m i) (and (mapin m.inner (. (omPair m i) Key)) (= (mapget m.inner (. (omPair m i) Key)) (omPair m i)))))
+//@ define (omCovered m) (forall ((k (keyof m.inner))) (=> (mapin m.inner k) (exists ((i Int)) (and (omInRange m i) (= (omPair m i) (mapget m.inner k)) (= (. (omPair m i) Key) k)))))
+//@ define (omConsistent m) (and (not (= m.inner nil)) (= (len m.inner) (len m.Pairs)) (omIndexed m) (omCovered m))
+//@ -- omOK: the state of every map that was created by New and only touched through the methods
+//@ define (omOK m) (and (not (= m nil)) (omNonNilPairs m) (omDistinct m) (omConsistent m))
+//@ -- omInv: what holds of every map, including one that was just decoded
+//@ define (omInv m) (and (not (= m nil)) (omNonNilPairs m) (omDistinct m) (or (omConsistent m) (not (= (len m.inner) (len m.Pairs)))))
+
+//@ func New
+//@ prop C05 C06 C04
+//@ nopanic
+//@ ensures fresh-empty (and (fresh result) (omOK result) (= (len result.Pairs) 0))
+
+//@ func (*OrderedMap).rehydrate
+//@ prop C06 C05
+//@ nopanic
+//@ requires (and (not (= m nil)) (omNonNilPairs m))
+//@ modifies (obj m) (map m.inner)
+//@ ensures noop-when-sizes-agree (=> (old (= (len m.Pairs) (len m.inner))) (and (heap-unchanged (obj m)) (heap-unchanged (map m.inner))))
+//@ ensures pairs-untouched (= m.Pairs (old m.Pairs))
+//@ ensures rebuilt-index (=> (old (and (not (= (len m.Pairs) (len m.inner))) (omDistinct m))) (omConsistent m))
+//@ ensures others-untouched (forall ((o (typeof m))) (=> (and (allocated-before o) (not (= o m))) (= (deref o) (old (deref o)))))
+//@ ensures other-maps-untouched (forall ((r (typeof m.inner))) (=> (allocated-before r) (and (= (mapdom r) (old (mapdom r))) (= (mapvals r) (old (mapvals r))) (= (len r) (old (len r))))))
+//@ loop 0 invariant idx (and (<= -1 rangeindex) (< rangeindex (len m.Pairs)) (= m.Pairs (old m.Pairs)) (fresh m.inner) (not (= m.inner nil)))
+//@ loop 0 invariant size (=> (old (omDistinct m)) (= (len m.inner) (+ rangeindex 1)))
+//@ loop 0 invariant indexed (=> (old (omDistinct m)) (forall ((i Int)) (=> (and (<= 0 i) (<= i rangeindex)) (and (mapin m.inner (. (omPair m i) Key)) (= (mapget m.inner (. (omPair m i) Key)) (omPair m i))))))
+//@ loop 0 invariant covered (forall ((k (keyof m.inner))) (=> (mapin m.inner k) (exists ((i Int)) (and (<= 0 i) (<= i rangeindex) (= (omPair m i) (mapget m.inner k)) (= (. (omPair m i) Key) k)))))
+//@ loop 0 invariant frame-objs (forall ((o (typeof m))) (=> (and (allocated-before o) (not (= o m))) (= (deref o) (old (deref o)))))
+//@ loop 0 invariant frame-maps (forall ((r (typeof m.inner))) (=> (allocated-before r) (and (= (mapdom r) (old (mapdom r))) (= (mapvals r) (old (mapvals r))) (= (len r) (old (len r))))))
+
+//@ define (omOthersUntouched m) (and
+//@   (forall ((o (typeof m))) (=> (and (allocated-before o) (not (= o m))) (= (deref o) (old (deref o)))))
+//@   (forall ((r (typeof m.inner))) (=> (and (allocated-before r) (not (= r (old m.inner)))) (and (= (mapdom r) (old (mapdom r))) (= (mapvals r) (old (mapvals r))) (= (len r) (old (len r)))))))
+
+//@ func (*OrderedMap).Load
+//@ prop C05 C06
+//@ nopanic
+//@ requires (omInv m)
+//@ modifies (obj m) (map m.inner)
+//@ ensures ok-after (omOK m)
+//@ ensures pairs-untouched (= m.Pairs (old m.Pairs))
+//@ ensures found-iff-indexed (= result1 (mapin m.inner key))
+//@ ensures value-of-pair (= result0 (ite result1 (. (mapget m.inner key) Value) (zero V)))
+//@ ensures noop-when-consistent (=> (old (omConsistent m)) (and (heap-unchanged (obj m)) (heap-unchanged (map m.inner))))
+//@ ensures others-untouched (omOthersUntouched m)
+
+//@ func (*OrderedMap).Value
+//@ prop C05 C06
+//@ nopanic
+//@ requires (omInv m)
+//@ modifies (obj m) (map m.inner)
+//@ ensures ok-after (omOK m)
+//@ ensures pairs-untouched (= m.Pairs (old m.Pairs))
+//@ ensures value-of-pair (= result (ite (mapin m.inner key) (. (mapget m.inner key) Value) (zero V)))
+//@ ensures noop-when-consistent (=> (old (omConsistent m)) (and (heap-unchanged (obj m)) (heap-unchanged (map m.inner))))
+//@ ensures others-untouched (omOthersUntouched m)
+
+//@ -- Store requires a consistent map (one made by New): on a decoded, empty map rehydrate returns early with
+//@ -- inner == nil and the map write would panic.
+//@ func (*OrderedMap).Store
+//@ prop C05 C06 C04
+//@ nopanic
+//@ requires (omOK m)
+//@ modifies (obj m) (map m.inner) (elems m.Pairs) (obj (omPair m 0))
+//@ ensures ok-after (omOK m)
+//@ ensures same-index-map (= m.inner (old m.inner))
+//@ ensures stored (and (mapin m.inner key) (= (. (mapget m.inner key) Value) value) (= (. (mapget m.inner key) Key) key))
+//@ ensures keys (forall ((k K)) (= (mapin m.inner k) (or (= k key) (old (mapin m.inner k)))))
+//@ ensures other-entries-kept (forall ((k K)) (=> (and (not (= k key)) (old (mapin m.inner k))) (and (= (mapget m.inner k) (old (mapget m.inner k))) (= (deref (mapget m.inner k)) (old (deref (mapget m.inner k)))))))
+//@ ensures overwrite-keeps-order (=> (old (mapin m.inner key)) (and (= m.Pairs (old m.Pairs)) (= (mapget m.inner key) (old (mapget m.inner key))) (forall ((i Int)) (=> (omInRange m i) (= (omPair m i) (old (omPair m i)))))))
+//@ ensures insert-appends (=> (not (old (mapin m.inner key))) (and (= (len m.Pairs) (+ (old (len m.Pairs)) 1)) (= (omPair m (old (len m.Pairs))) (mapget m.inner key)) (fresh (mapget m.inner key)) (forall ((i Int)) (=> (and (<= 0 i) (< i (old (len m.Pairs)))) (= (omPair m i) (old (omPair m i)))))))
+//@ ensures other-pairs-untouched (forall ((p *Pair[K,V])) (=> (and (allocated-before p) (not (= p (old (mapget m.inner key))))) (= (deref p) (old (deref p)))))
+//@ ensures others-untouched (omOthersUntouched m)
